@@ -1464,9 +1464,14 @@ def _oracle_routes(ctx, rng, frclim, ode):
         q = np.setdiff1d(np.arange(n_), bset)
         T = np.zeros((r, n_))
         T[np.arange(r), bset] = 1.0
-        freq = np.sort(rng.uniform(1.0, 120.0, 3))
-        ref = np.empty((r, 3, r), complex)
-        cond = np.empty(3)
+        # LONG sweeps now and then (more than 1024 frequency points, lengths that no block size divides): a solver that
+        # works through the frequency axis in blocks must not lose the tail
+        nf = 3 if it % 8 != 3 else int(rng.choice([1025, 1501, 2050, 2047, 3001]))
+        if nf > 3:
+            ctx.count("oracle:routes:long-sweep")
+        freq = np.sort(rng.uniform(1.0, 120.0, nf))
+        ref = np.empty((r, nf, r), complex)
+        cond = np.empty(nf)
         for j, f in enumerate(freq):
             O = 2 * np.pi * f
             D = M + B / (1j * O) - K / O ** 2
@@ -1478,7 +1483,13 @@ def _oracle_routes(ctx, rng, frclim, ode):
         inp = {"kind": "calcAM-drm", "route": route, "M": _enc(M), "B": _enc(B), "K": _enc(K), "T": _enc(T),
                "freq": freq.tolist(), "bset": [int(i) for i in bset]}
         fails = []
-        am = _calc_am(frclim, ode, {"M": M, "B": B, "K": K, "T": T, "freq": freq, "route": route})
+        try:
+            am = _calc_am(frclim, ode, {"M": M, "B": B, "K": K, "T": T, "freq": freq, "route": route})
+        except Exception as e:  # noqa: BLE001  (valid, well-conditioned input: raising is a failure)
+            ctx.failures.append({"family": "calcAM-drm-%s-raises-%s" % (route, fam), "what": "calcAM raises on a valid model "
+                                 "(%d frequencies)" % nf, "input": inp, "observed": "%s: %s" % (type(e).__name__, str(e)[:120]),
+                                 "required": "the apparent mass"})
+            continue
         _chk(fails, "calcAM-drm-%s-vs-schur-complement-%s" % (route, fam),
              "calcAM (recovery matrix selecting a scattered b-set) != Schur complement of the full impedance onto the b-set",
              inp, am, ref, cond, 1)
